@@ -5,10 +5,14 @@ package config
 import (
 	"crypto/x509/pkix"
 	"encoding/asn1"
+	"errors"
 	"fmt"
 	"reflect"
 	"strings"
 	"testing"
+	"time"
+
+	"github.com/wokdav/gopki/generator/cert"
 )
 
 var vfAlphabet = []string{"C", "O", "CN", "1.2.3"}
@@ -200,4 +204,153 @@ func TestVerifBoundedRDN(t *testing.T) {
 		}
 	}
 	fmt.Printf("VERIF-BOUNDED: ok cases=%d\n", n)
+}
+
+// ---- bounded stand-in for Merge (C08, C03, C04, C13). The oracle is written from the statement of C08, not from the
+// code: a set of matched indices, a first-unmatched-with-same-OID search, and the three cases of the statement.
+
+type vfExt struct {
+	O int    `json:"o"`
+	C string `json:"c"`
+}
+
+func (e vfExt) Oid() asn1.ObjectIdentifier              { return asn1.ObjectIdentifier{1, 2, 3, e.O} }
+func (e vfExt) Builder() (cert.ExtensionBuilder, error) { return nil, errors.New("stand-in extension") }
+
+type vfProfEntry struct {
+	E                  vfExt
+	Optional, Override bool
+}
+
+func vfMergeOracle(prof []vfProfEntry, certExts []vfExt) []vfExt {
+	matched := map[int]bool{}
+	placed := map[int]bool{}
+	var out []vfExt
+	for _, p := range prof {
+		m := -1
+		for i, c := range certExts {
+			if !matched[i] && c.O == p.E.O {
+				m = i
+				break
+			}
+		}
+		switch {
+		case m >= 0 && p.Override:
+			matched[m] = true
+			placed[m] = true
+			out = append(out, certExts[m])
+		case m >= 0:
+			matched[m] = true
+			if certExts[m] != p.E {
+				out = append(out, p.E)
+			}
+		case !p.Optional:
+			out = append(out, p.E)
+		}
+	}
+	for i, c := range certExts {
+		if !placed[i] {
+			out = append(out, c)
+		}
+	}
+	return out
+}
+
+func vfLists[T any](alphabet []T, maxLen int) [][]T {
+	res := [][]T{{}}
+	level := [][]T{{}}
+	for l := 1; l <= maxLen; l++ {
+		var next [][]T
+		for _, pre := range level {
+			for _, a := range alphabet {
+				n := append(append([]T{}, pre...), a)
+				next = append(next, n)
+			}
+		}
+		res = append(res, next...)
+		level = next
+	}
+	return res
+}
+
+func TestVerifBoundedMerge(t *testing.T) {
+	var entries []vfProfEntry
+	var exts []vfExt
+	for _, o := range []int{1, 2} {
+		for _, c := range []string{"a", "b"} {
+			exts = append(exts, vfExt{o, c})
+			for _, opt := range []bool{false, true} {
+				for _, ovr := range []bool{false, true} {
+					entries = append(entries, vfProfEntry{vfExt{o, c}, opt, ovr})
+				}
+			}
+		}
+	}
+	profLists := vfLists(entries, 3)
+	certLists := vfLists(exts, 3)
+	if testing.Short() {
+		profLists = vfLists(entries, 2)
+	}
+	t0 := time.Date(2020, 1, 2, 3, 4, 5, 0, time.UTC)
+	n := 0
+	for _, pl := range profLists {
+		prof := CertificateProfile{Name: "p"}
+		for _, e := range pl {
+			prof.Extensions = append(prof.Extensions, ProfileExtension{ExtensionConfig: e.E, ExtensionProfile: ExtensionProfile{Optional: e.Optional, Override: e.Override}})
+		}
+		profCopy := append([]ProfileExtension{}, prof.Extensions...)
+		for _, cl := range certLists {
+			content := CertificateContent{Alias: "a", Profile: "p", Issuer: "i", SerialNumber: 7,
+				IssuerUniqueId: asn1.BitString{Bytes: []byte{0xA0}, BitLength: 3}, SubjectUniqueId: asn1.BitString{Bytes: []byte{0x55}, BitLength: 8},
+				Subject: pkix.RDNSequence{{{Type: asn1.ObjectIdentifier{2, 5, 4, 3}, Value: "x"}}}, KeyAlgorithm: cert.P384, SignatureAlgorithm: cert.ECDSAwithSHA384}
+			for _, e := range cl {
+				content.Extensions = append(content.Extensions, e)
+			}
+			contentCopy := append([]ExtensionConfig{}, content.Extensions...)
+			got, err := Merge(prof, content)
+			n++
+			if err != nil || got == nil {
+				fmt.Printf("VERIF-BOUNDED: violation Merge(profile %+v, certificate extensions %+v) = %v, %v\n", pl, cl, got, err)
+				return
+			}
+			want := vfMergeOracle(pl, cl)
+			if len(got.Extensions) != len(want) {
+				fmt.Printf("VERIF-BOUNDED: violation Merge(profile %+v, certificate extensions %+v): effective list %+v, the statement gives %+v\n", pl, cl, got.Extensions, want)
+				return
+			}
+			for i := range want {
+				if g, ok := got.Extensions[i].(vfExt); !ok || g != want[i] {
+					fmt.Printf("VERIF-BOUNDED: violation Merge(profile %+v, certificate extensions %+v): effective list %+v, the statement gives %+v\n", pl, cl, got.Extensions, want)
+					return
+				}
+			}
+			if len(prof.Extensions) != len(profCopy) || len(content.Extensions) != len(contentCopy) || (len(profCopy) > 0 && !reflect.DeepEqual(prof.Extensions, profCopy)) || (len(contentCopy) > 0 && !reflect.DeepEqual(content.Extensions, contentCopy)) {
+				fmt.Printf("VERIF-BOUNDED: violation Merge(profile %+v, certificate extensions %+v) changed its arguments\n", pl, cl)
+				return
+			}
+			exp := content // every field except the extension list (and an inherited validity) is taken over unchanged
+			exp.Extensions, exp.Validity = got.Extensions, got.Validity
+			if !reflect.DeepEqual(*got, exp) {
+				fmt.Printf("VERIF-BOUNDED: violation Merge changed a field it must take over: %+v from %+v\n", *got, content)
+				return
+			}
+		}
+	}
+	// validity: inherited exactly when the certificate sets none and the profile sets one
+	for _, cs := range []bool{false, true} {
+		for _, ps := range []bool{false, true} {
+			pv := CertificateValidity{From: t0, Until: t0.AddDate(1, 0, 0), IsSet: ps, IsStatic: true}
+			cv := CertificateValidity{From: t0.AddDate(0, 1, 0), Until: t0.AddDate(0, 2, 0), IsSet: cs}
+			got, err := Merge(CertificateProfile{Validity: pv}, CertificateContent{Validity: cv})
+			want := cv
+			if !cs && ps {
+				want = pv
+			}
+			if err != nil || got.Validity != want {
+				fmt.Printf("VERIF-BOUNDED: violation Merge validity: certificate set=%v profile set=%v gives %+v, expected %+v\n", cs, ps, got.Validity, want)
+				return
+			}
+		}
+	}
+	fmt.Printf("VERIF-BOUNDED: ok cases=%d Merge against the statement of C08: profile lists up to length 3 over 16 entries (2 OIDs x 2 contents x optional x override) x certificate lists up to length 3 over 4 extensions, arguments unchanged, validity inheritance\n", n)
 }
